@@ -999,8 +999,13 @@ def check_conc(pid, tier, seed, scratch, replay):
         # free-running under the race detector
         racelog = scratch.path("racelog")
         tr = scratch.path("trace.conc.free.ndjson")
-        vlib.run_drive(drive_race, ["conc", "-out", tr, "-seed", str(seed), "-free", "150" if thorough else "30"], timeout=3000,
-                       env={"GORACE": "log_path=%s exitcode=0 halt_on_error=0" % racelog, "VERIF_EXTRA_DOCS": tsdir})
+        t_ = time.time()
+        docs = gen_docs(scratch, seed, every=53)
+        log("source documents generated in %.1fs" % (time.time() - t_))
+        t_ = time.time()
+        vlib.run_drive(drive_race, ["conc", "-out", tr, "-seed", str(seed), "-free", "150" if thorough else "30", "-rounds", "3" if thorough else "1"], timeout=3000,
+                       env={"GORACE": "log_path=%s exitcode=0 halt_on_error=0" % racelog, "VERIF_EXTRA_DOCS": docs, "VERIF_CONC_EVERY": 1 if thorough else 3})
+        log("free-running scenarios under the race detector done in %.1fs" % (time.time() - t_))
         reports = []
         for f in glob.glob(racelog + "*"):
             txt = open(f, errors="replace").read()
